@@ -177,6 +177,7 @@ func (w *World) Dial(ctx context.Context, from, caller, server string) (net.Conn
 		return nil, ctx.Err()
 	}
 	if !up {
+		w.refused(caller, server)
 		time.Sleep(time.Millisecond)
 		return nil, ErrRefused
 	}
@@ -401,6 +402,18 @@ func (w *World) runStmt(m *myconn, text string, args []string, binary bool) bool
 
 // unanswered records a dial or statement that the server never sees because the caller cannot
 // reach it (the caller runs into its own deadline), and tells the AfterStmt hooks with Errno -3.
+// refused records a connection attempt to a server that is down (refused at once) and tells the AfterStmt hooks with
+// Errno -4: the monitors that reconstruct an instance's view must know that it could not talk to the host.
+func (w *World) refused(caller, host string) {
+	w.mu.Lock()
+	defer w.mu.Unlock()
+	w.LogLocked(Event{Kind: "sql", Who: caller, Host: host, Class: "dial", Res: "refused", Err: -4})
+	ctx := &StmtCtx{Caller: caller, Host: host, Class: "dial", Errno: -4, Note: "refused"}
+	for _, f := range w.AfterStmt {
+		f(w, ctx)
+	}
+}
+
 func (w *World) unanswered(caller, host, class, text string) {
 	w.mu.Lock()
 	defer w.mu.Unlock()
